@@ -390,6 +390,7 @@ package commands
 //@   at call (*tq.TransferQueue).remember:1 assert arg0__ == q && arg1__ == t && t.Name == old(name) && t.Path == old(path) && t.Oid == old(oid) && t.Size == old(size) && t.Missing == old(missing) && old(err) == nil
 //@   at send incoming assert mapval__ == t && len(objs.objects) <= 1
 //@   at send errorc assert mapval__ == old(err) && old(err) != nil
+//@   ensures @checked old(err) != nil ==> chsent(q.errorc) == old(chsent(q.errorc)) + 1
 
 // progress output and queue construction used by prune (assumed frames)
 //@ func logVerboseOutput
